@@ -269,7 +269,7 @@ def readEntries (sd : Side) (bat : List Nat) (sidePath : Option Str) : List Entr
       if fname.contains 47 || fname.contains 0 then ({ st with l := l }, some (.valueError "invalid.file.name"))
       else if fname = [46] || fname = [46, 46] then ({ st with l := l }, some (.osError "IsADirectoryError"))
       else
-        let data := readFile sd bat e
+        let data := readFileImpl sd bat e
         readEntries sd bat sidePath rest { st with l := onEndOfFile l ev, writes := st.writes ++ [(pathJoin dir fname, data)] }
 
 def readSides (targetDir : Option Str) : List Side → Nat → RdState → RdState × Option PyErr
